@@ -20,13 +20,11 @@ type RVal struct {
 }
 
 func (p *Program) rtypePtr() types.Type {
-	if t, ok := p.Extra["rtypePtr"]; ok {
-		return t.(types.Type)
-	}
-	obj := p.allPkgs["reflect"].Pkg.Scope().Lookup("rtype")
-	t := types.NewPointer(obj.Type())
-	p.Extra["rtypePtr"] = t
-	return t
+	p.rtypeOnce.Do(func() {
+		obj := p.allPkgs["reflect"].Pkg.Scope().Lookup("rtype")
+		p.rtypeT = types.NewPointer(obj.Type())
+	})
+	return p.rtypeT
 }
 
 func (e *Exec) mkRType(t types.Type) Value {
